@@ -49,8 +49,8 @@ func (n WireNIC) NICInfo() *packet.NICInfo {
 }
 
 // NewWireSession builds a session over a recording connection for the NIC configuration.
-func NewWireSession(n WireNIC) (*packet.Session, *RecConn, error) {
-	conn := NewRecConn()
+func NewWireSession(n WireNIC) (*packet.Session, *WireConn, error) {
+	conn := NewWireConn()
 	s, err := packet.Config{Conn: conn, NICInfo: n.NICInfo(), ProbeDeadline: time.Minute, OfflineDeadline: 2 * time.Minute,
 		PurgeDeadline: 4 * time.Minute}.NewSession("")
 	if err != nil {
